@@ -173,12 +173,19 @@ def big_records():
     for n in (32768, 34000):
         out.append(('ssh_init', sr.SshRecordInit, 'ssh_payload_%d' % n, bytes(sr.SshRecordInit(
             ss.SshDisconnectMessage(ss.SshReasonCode.BY_APPLICATION, 'x' * n, '')).compose())))
+    # handshake messages longer than one record (3-octet length; the message necessarily spans records): a
+    # Certificate message with one opaque certificate, payload around 2^14, 2^15, 2^16 and in between
+    for payload in (16383, 16384, 16385, 22116, 32768, 65536, 70001):
+        cert = payload - 6
+        msg = (b'\x0b' + payload.to_bytes(3, 'big') + (cert + 3).to_bytes(3, 'big') + cert.to_bytes(3, 'big') +
+               bytes(bytearray((k * 7 + 1) & 0xff for k in range(cert))))
+        out.append(('handshake_message', sp.TlsHandshakeMessageVariant, 'handshake_payload_%d' % payload, msg))
     return out
 
 
 def _big_worker(i):
-    """One big record followed by a small one of its layer; delivery points: 0..8, +-2 around every multiple of 2^14
-    and around the record end, the last 4 bytes, and the whole stream - each judged by the per-state clauses of the BFS
+    """One big record followed by a small one of its layer; delivery points: 0..8, around every multiple of 2^14
+    and around the record end, the last 4 bytes, every 1021st byte, and the whole stream - each judged by the per-state clauses of the BFS
     (every state (0, d) is initial there, so no closure is needed for these clauses)."""
     acc = core.Acc()
     layer, cls, label, rec = big_records()[i]
@@ -186,6 +193,8 @@ def _big_worker(i):
     for lname, lcls, recs, extra in layers.layers():
         if lname == layer:
             small = min(recs, key=len)
+    if layer == 'handshake_message':
+        small = min((b for _, b in layers.handshake_messages()), key=len)
     follow = small or b''
     S = rec + follow
     end = len(rec)
@@ -198,7 +207,8 @@ def _big_worker(i):
         return acc.result()
     points = set(range(0, 9)) | {end - k for k in range(0, 5)} | {end + k for k in range(1, 4)} | {len(S)}
     for mult in range(1, end // 16384 + 2):
-        points |= {mult * 16384 + k for k in range(-3, 6)}
+        points |= {mult * 16384 + k for k in range(-3, 10)}
+    points |= set(range(0, end, 1021))
     for d in sorted(p for p in points if 0 <= p <= len(S)):
         kind, a, b = reader.parse(S[:d])
         acc.counters['transitions'] = acc.counters.get('transitions', 0) + 1
